@@ -90,9 +90,18 @@ def oracle_single(case) -> Result:
     tname, order, flags, default = case['type'], case['order'], case['flags'], case['default']
     cs = CostSpec(shared=True, default_behavior=default)
     fns = {p: (lambda s, _p=p: _p) for p in order}
-    for p in order:
-        cs[(_torch_type(tname), _constraint(tname, p))] = fns[p]
     spec = _make_spec(tname, flags)
+    for i, p in enumerate(order):
+        cs[(_torch_type(tname), _constraint(tname, p))] = fns[p]
+        if case.get('probe'):
+            # lookups interleaved with the registrations: after every registration the answer
+            # is the documented one for the patterns registered so far
+            exp_i = _reference(order[:i + 1], flags)
+            got_i = _lookup(cs, tname, spec, fns)
+            if got_i != exp_i:
+                res.bad('lookup-between-registrations-differs-from-documented-rule',
+                        registered_so_far=order[:i + 1], expected=exp_i, got=got_i)
+                return res
     # the library's own pattern constraints (plinio/cost/pattern.py) decide what the layer, built
     # here from its flags (depthwise / 3x3 / user property), satisfies
     for p in PATS[1:]:
@@ -137,6 +146,9 @@ def enum_single(tier):
                         for default in ('zero', 'fail'):
                             yield {'type': tname, 'order': list(order), 'flags': flags,
                                    'default': default}
+                            if len(order) >= 2:
+                                yield {'type': tname, 'order': list(order), 'flags': flags,
+                                       'default': default, 'probe': True}
 
 
 # -- mixed-type interleavings (Hypothesis) ------------------------------------------------
@@ -239,7 +251,8 @@ CHECK = Check(
     prop='C15',
     parts=[
         Part('orders', oracle_single, enumerate=enum_single,
-             exhaustive_note='3 layer types x all ordered subsets of 4 patterns x 8 specs x 2 defaults'),
+             exhaustive_note='3 layer types x all ordered subsets of 4 patterns x 8 specs x 2 defaults '
+                             '(x with / without a lookup after every registration)'),
         Part('builtin', oracle_builtin, enumerate=enum_builtin,
              exhaustive_note='every built-in CostSpec re-registered in every order'),
         Part('mixed', oracle_mixed, strategy=mixed_cases(),
@@ -247,7 +260,9 @@ CHECK = Check(
     ],
     rule=("orders: exhaustive over layer type x every ordered subset (<=4) of {unconstrained, "
           "depthwise, 3x3, user constraint} x the 8 specs satisfying each subset of constraints x "
-          "both defaults; builtin: every permutation of each built-in CostSpec's entries; mixed: "
+          "both defaults, once with all registrations first and once with a lookup after every "
+          "registration (each answer = the documented one for the patterns registered so far); "
+          "builtin: every permutation of each built-in CostSpec's entries; mixed: "
           "Hypothesis interleavings of registrations for three layer types + repeated lookups. "
           "Non-trivial = at least two patterns registered for the looked-up type and at least "
           "one constrained pattern matches (so order could matter); distinct by case hash."),
